@@ -210,6 +210,27 @@ static long run_ops(int k){
         U("U_TestCancelCall", 1, (long)k); myth_testcancel(); U("U_TestCancelRet", 1, (long)k);
         yield_(k, myth_yield_option_local_first); }
       break;
+    case OP_SLEEP: { struct timespec rq; int rc; rq.tv_sec = o->a; rq.tv_nsec = o->b;   /* a = sec, b = nsec (possibly malformed) */
+        U("U_NanosleepCall", 3, (long)k, (long)o->a, (long)o->b); rc = myth_nanosleep(&rq, 0); U("U_NanosleepRet", 2, (long)k, (long)rc); break; }
+    case OP_TLK: { struct timespec now, dl; int rc; long ns;   /* a = mutex, b = relative timeout in us (may be negative: already past) */
+        myth_verif_clock(&now); ns = now.tv_nsec + (long)o->b * 1000; dl.tv_sec = now.tv_sec; 
+        while (ns >= 1000000000L){ ns -= 1000000000L; dl.tv_sec++; } while (ns < 0){ ns += 1000000000L; dl.tv_sec--; } dl.tv_nsec = ns;
+        U("U_TimedLockCall", 4, (long)k, MXID(o->a), (long)dl.tv_sec, (long)dl.tv_nsec);
+        rc = myth_mutex_timedlock(&mtx[o->a], &dl);
+        U("U_TimedLockRet", 3, (long)k, MXID(o->a), (long)rc);
+        if (rc == 0){ critical(k, o->a); if (o->c) yield_(k, o->c - 1); unlock_(k, o->a); }
+        break; }
+    case OP_TJN: { struct timespec now, dl; int rc; long ns; void *r = 0;   /* a = target, b = relative timeout in us; retried until it succeeds */
+        for (;;){
+          myth_verif_clock(&now); ns = now.tv_nsec + (long)o->b * 1000; dl.tv_sec = now.tv_sec;
+          while (ns >= 1000000000L){ ns -= 1000000000L; dl.tv_sec++; } while (ns < 0){ ns += 1000000000L; dl.tv_sec--; } dl.tv_nsec = ns;
+          U("U_TimedJoinCall", 4, (long)k, (long)o->a, (long)dl.tv_sec, (long)dl.tv_nsec);
+          rc = myth_timedjoin(handle[o->a], &r, &dl);
+          U("U_TimedJoinRet", 5, (long)k, (long)o->a, (long)rc, (long)(rc == 0 ? (long)r : 0), (long)(rc == 0 ? cell[o->a] : 0));
+          if (rc == 0) break;
+          yield_(k, myth_yield_option_local_first);
+        }
+        self_of[o->a] = 0; break; }
     case OP_ONCE: U("U_OnceCall", 2, (long)k, ONID(o->a)); myth_once(&onces[o->a], o->a == 0 ? once_fn0 : once_fn1); U("U_OnceRet", 2, (long)k, ONID(o->a)); break;
     case OP_FEWL: /* a = felock, b = status to wait for; c = 1: consume (count), 2: produce */
       U("U_FeWaitLockCall", 5, (long)k, FEID(o->a), (long)o->b, VMX(fes[o->a].mutex), VCV(&fes[o->a].cond[o->b]));
